@@ -19,7 +19,7 @@
                  counts) hold with panicking callbacks too and carry no such hypothesis. *)
 From Juniper Require Import Common.Base Iter.Syntax Iter.Config Iter.ModelBase Iter.IterModel
   Iter.StreamModel Iter.Spec Iter.IterProofs Iter.StreamProofs Iter.Reducers Iter.SReducers
-  Iter.XSlices Iter.Lazy Iter.Final.
+  Iter.XSlices Iter.Lazy Iter.Final Iter.ErrorSource.
 
 (* ---- every pipeline yields its denotation; the end is sticky ---- *)
 Theorem C07_iter_den : forall cfg p lives,
@@ -229,6 +229,29 @@ Theorem C07_lazy_flatten_call : forall St (nx : St -> ret Z St) n rest c x c' ev
   nx c = (Item x, c', ev) -> iflatten nx (S n) rest (Some c) = (Item x, (rest, Some c'), ev).
 Proof. exact @iflatten_lazy. Qed.
 
+(* ---- the constructor stream.Error(err): "a Stream that immediately produces err from Next" ----
+   (source SError e).  The model's Next is the Go method `var zero T; return zero, s.err`: the
+   answer is e whatever the context, and the state is what it was ... *)
+Theorem C07_stream_error_next : forall live e,
+  ssrc_next live (ssrc_init (SError e)) = (Err e, ssrc_init (SError e)).
+Proof. exact serror_next. Qed.
+
+(* ... so for EVERY consumer program - any number of Next calls, with live or expired contexts,
+   Close anywhere, Next after Close - each Next answers e (never an item, never the end, never
+   the context error) and each Close just returns; the stream receives exactly these calls. *)
+Theorem C07_stream_error_results : forall e cfg id ops,
+  results (run_stream_cfg cfg (inl (ZSrc id (SError e))) (Steps ops)) = map (error_answer e) ops.
+Proof. exact error_stream_results. Qed.
+
+Theorem C07_stream_error_log : forall e cfg id ops,
+  ro_log (run_stream_cfg cfg (inl (ZSrc id (SError e))) (Steps ops)) = map (error_event id) ops.
+Proof. exact error_stream_log. Qed.
+
+(* it denotes no items and is a source of package stream only *)
+Theorem C07_stream_error_den : forall id e,
+  den_z (ZSrc id (SError e)) = [] /\ iter_supported_z (ZSrc id (SError e)) = false.
+Proof. intros id e. exact (conj eq_refl eq_refl). Qed.
+
 (* the fuel the models use is always enough *)
 Theorem C07_model_total_iter : forall s o s' ev, istep s = (o, s', ev) -> o <> Out.
 Proof. exact inext_fuel_enough. Qed.
@@ -287,6 +310,10 @@ Print Assumptions C07_lazy_filter.
 Print Assumptions C07_lazy_filter_call.
 Print Assumptions C07_lazy_chunk_call.
 Print Assumptions C07_lazy_compact_call.
+Print Assumptions C07_stream_error_next.
+Print Assumptions C07_stream_error_results.
+Print Assumptions C07_stream_error_log.
+Print Assumptions C07_stream_error_den.
 Print Assumptions C07_model_total_iter.
 Print Assumptions C07_model_total_stream.
 
